@@ -410,7 +410,7 @@ def run_dataset_list(ctx, method):
 
 
 def run(ctx):
-    n = ctx.n(120, 500)
+    n = ctx.n(120, 4000)
     for it in range(n):
         if ctx.out_of_time():
             ctx.notes.append(f'time budget reached after {it} rounds')
